@@ -39,7 +39,7 @@ class NamesStack:
         self.stack.pop()
 
     def delete_name(self, name: str) -> None:
-        self.stack[-1].remove(name)
+        self.stack[-1].discard(name)
 
     def global_names(self) -> set[str]:
         names = self.stack[0].copy()
